@@ -5,6 +5,7 @@ import (
 	"os"
 	"path/filepath"
 	"runtime"
+	"runtime/debug"
 	"strconv"
 	"strings"
 	"sync"
@@ -154,7 +155,12 @@ func selfTest(prop string) map[string]interface{} {
 	// replays run at the same time on this machine, however many checks were started in parallel
 	unlock := corpusSlot()
 	defer unlock()
-	sem := make(chan struct{}, 3)
+	sem := make(chan struct{}, 2)
+	// the garbage of one variant is the size of a whole program: without a limit the heap doubles before it is
+	// collected (27 GB were seen); a soft limit makes the collector run as soon as the live variants allow
+	if os.Getenv("GOMEMLIMIT") == "" {
+		debug.SetMemoryLimit(12 << 30)
+	}
 	var wg sync.WaitGroup
 	// the replay is bounded in time (PLUSH_REPLAY_BUDGET seconds, default 600): what does not fit is recorded as
 	// not replayed - the self-test measures the checker, it must not make the check of the tree run for hours
